@@ -32,7 +32,7 @@ CHECKS = {
          "Generated push/extend/from_iter histories with values over the whole range of each integer type; len/is_empty/get/iterators compared with the low two bits of every value.",
          "Vec<u8> model", "3/C13"),
  "C04": ("proptest API-totality testing: generated call lists with boundary-biased raw arguments on values obtained by every route, plus an enumerated method x boundary-argument sweep on empty/default/one-element values; crash isolation by the driver",
-         "Every safe method of every public type is called with arguments from the whole domain (0, boundaries +-1, n+-2, count+-2, usize::MAX-k, symbols 0..=255 and far above max) on values obtained by construction, Default, Clone, bincode round trip and conversions, in an optimised build and in a build with debug assertions and overflow checks. The model decides before each call whether a documented panic is permitted; any other panic, any Some for an invalid argument, and any process death (SIGSEGV, abort) is a violation. The enumerated part covers the finite sub-space method x 40 boundary arguments x 11 symbols on 738 empty/default/one-element values completely.",
+         "Every safe method of every public type is called with arguments from the whole domain (0, boundaries +-1, n+-2, count+-2, usize::MAX-k, symbols 0..=255 and far above max) on values obtained by construction, Default, Clone, bincode round trip and conversions, in an optimised build, in a build with debug assertions and overflow checks, and in an AddressSanitizer build. The model decides before each call whether a documented panic is permitted; any other panic, any Some for an invalid argument, and any process death (SIGSEGV, abort) is a violation. The enumerated part covers the finite sub-space method x 40 boundary arguments x 11 symbols on 738 empty/default/one-element values completely.",
          "the models; size arguments (with_capacity, with_zeros, extend_with_zeros) <= 2^22; hostile serialized bytes out of scope; reads that stay inside an allocation are only visible through wrong answers", "3/C04"),
  "C09": ("proptest differential testing of rank_prefetch vs rank vs model on all 8 quad aliases in three builds, with cross-build answer digests (feature prefetch on/off)",
          "rank_prefetch must equal rank (and the model) for valid and invalid (symbol, position) pairs; the same generated cases run in builds with the crate feature prefetch on and off and their per-case answer digests must be identical; lengths are biased to several 2048-symbol sampling periods and to k*2048 +- 1 where off-by-one sample layouts surface.",
